@@ -441,6 +441,10 @@ impl Iterator for ClosestBucketsIter {
                 if let Some(i) = self.next_in(i) {
                     self.state = ClosestBucketsIterState::ZoomIn(i);
                     Some(i)
+                } else if i.get() == 0 {
+                    // Bucket 0 has just been yielded (start or zoom-in); do not yield it again.
+                    self.state = ClosestBucketsIterState::ZoomOut(i);
+                    self.next()
                 } else {
                     let i = BucketIndex(0);
                     self.state = ClosestBucketsIterState::ZoomOut(i);
